@@ -64,3 +64,102 @@ def census(model, funcs=None):
                     continue
                 out.append((f, n, False, 'identity comparison on values that are not singletons'))
     return out
+
+
+def truth_uses(fnode, name):
+    """the places where the local/parameter `name` is tested for truth (if x / while x / x and .. / not x / bool(x) / assert x / comprehension
+    conditions / conditional expressions): for a container that is a test of its *content* (len), not of its presence"""
+    out = []
+
+    def is_name(e):
+        return isinstance(e, ast.Name) and e.id == name
+
+    def boolctx(e):
+        if is_name(e):
+            out.append(e)
+        elif isinstance(e, ast.BoolOp):
+            for v in e.values:
+                boolctx(v)
+        elif isinstance(e, ast.UnaryOp) and isinstance(e.op, ast.Not):
+            boolctx(e.operand)
+    shadow = set()
+    for n in ast.walk(fnode):
+        if n is not fnode and isinstance(n, (ast.FunctionDef, ast.Lambda)) and any(a.arg == name for a in n.args.args + n.args.kwonlyargs):
+            shadow |= {id(x) for x in ast.walk(n)}
+    for n in ast.walk(fnode):
+        if id(n) in shadow:
+            continue
+        if isinstance(n, (ast.If, ast.While, ast.IfExp, ast.Assert)):
+            boolctx(n.test)
+        elif isinstance(n, ast.comprehension):
+            for c in n.ifs:
+                boolctx(c)
+        elif isinstance(n, ast.BoolOp):
+            # `x and y` / `x or y` used as a value still short-circuits on the truth of x
+            for v in n.values[:-1]:
+                if is_name(v):
+                    out.append(v)
+        elif isinstance(n, ast.UnaryOp) and isinstance(n.op, ast.Not) and is_name(n.operand):
+            out.append(n.operand)
+        elif isinstance(n, ast.Call) and isinstance(n.func, ast.Name) and n.func.id == 'bool' and n.args and is_name(n.args[0]):
+            out.append(n.args[0])
+    seen, res = set(), []
+    for e in out:
+        if id(e) not in seen:
+            seen.add(id(e))
+            res.append(e)
+    return res
+
+
+def queue_params(model):
+    """[(func, parameter name)] for every package function that receives an event queue (an argument spelled <x>.queue / <x>.locking_deque, a
+    parameter named queue, or such a parameter passed on) - callee resolved by method name"""
+    by_name = {}
+    for f in model.all_funcs():
+        by_name.setdefault(f.name, []).append(f)
+    found = set()
+    for f in model.all_funcs():
+        for p in f.params:
+            if p in ('queue', 'locking_deque'):
+                found.add((f, p))
+    changed = True
+    while changed:
+        changed = False
+        for f in model.all_funcs():
+            mine = {p for g, p in found if g is f}
+            for c in walk_shallow(f.node):
+                if not (isinstance(c, ast.Call) and isinstance(c.func, (ast.Attribute, ast.Name))):
+                    continue
+                cname = c.func.attr if isinstance(c.func, ast.Attribute) else c.func.id
+                for callee in by_name.get(cname, ()):
+                    if isinstance(c.func, ast.Name) != (callee.cls is None):
+                        continue        # a bare name calls a nested/module function, an attribute calls a method
+                    off = 1 if (callee.params and callee.params[0] in ('self', 'cls') and isinstance(c.func, ast.Attribute)) else 0
+                    if len(c.args) + off > len(callee.params):
+                        continue
+                    binds = [(callee.params[i + off], a) for i, a in enumerate(c.args) if i + off < len(callee.params)]
+                    binds += [(k.arg, k.value) for k in c.keywords if k.arg in callee.params]
+                    for pn, a in binds:
+                        d = dotted(a)
+                        if (d and (d.endswith('.queue') or d.endswith('.locking_deque'))) or (isinstance(a, ast.Name) and a.id in mine):
+                            if (callee, pn) not in found:
+                                found.add((callee, pn))
+                                changed = True
+    return sorted(found, key=lambda t: (t[0].qualname, t[1]))
+
+
+def check_queue_truth(run, model, rule, classes=None, floor=1):
+    """a queue handed to the fabric is an object with __len__: testing it for truth asks whether it is empty, not whether one was given"""
+    n = 0
+    for f, p in queue_params(model):
+        if classes is not None and (f.cls is None or f.cls.name not in classes):
+            continue
+        n += 1
+        uses = truth_uses(f.node, p)
+        ok = not uses
+        run.inst(rule, f, 'parameter %s is never tested for truth' % p, ok,
+                 '' if ok else ('the queue parameter `%s` is tested for truth (%s): deque and LockingDeque define __len__, so an *empty* queue counts as "no queue '
+                                'given" - the answer then depends on whether events happen to be pending, not on which queue asks' % (p, norm(uses[0]))),
+                 node=uses[0] if uses else f.node, obligation=True)
+    run.floor('functions that receive an event queue', n, floor)
+    return n
